@@ -295,7 +295,7 @@ def run_program(calls, assign, split, version, dest, index):
     tmp = None
     try:
         if dest == 'path':
-            tmp = tempfile.mkdtemp(prefix='verif_c07_', dir='/dev/shm' if os.path.isdir('/dev/shm') else None)
+            tmp = H.scratch('verif_c07_')
             path = os.path.join(tmp, 'f.tdms')
         else:
             stream = io.BytesIO()
